@@ -10,6 +10,8 @@ import (
 	"io"
 	"os"
 	"testing"
+	"time"
+	"unicode/utf8"
 
 	"github.com/ossrs/go-oryx-lib/websocket"
 	"pgregory.net/rapid"
@@ -63,14 +65,17 @@ type Case struct {
 	SegKind int   `json:"seg_kind"`
 	Seg     []int `json:"seg,omitempty"`
 	ReadBuf int   `json:"read_buf"`
+	// LocalClose: the application has already sent its own Close frame and keeps reading until
+	// the peer's Close arrives (RFC 6455 7.1.2: the peer's frames are still to be received)
+	LocalClose bool `json:"local_close,omitempty"`
 }
 
 type stats struct {
-	event    wsref.EventKind
-	frames   int
-	partial  bool
-	delivered int
-	pongs    int
+	event      wsref.EventKind
+	frames     int
+	partial    bool
+	delivered  int
+	pongs      int
 	fragmented bool
 }
 
@@ -125,6 +130,12 @@ func runCase(c Case) (st stats, err error) {
 		}
 	}
 	conn.SetReadLimit(c.Limit)
+	if c.LocalClose {
+		if e := conn.WriteControl(websocket.CloseMessage, websocket.FormatCloseMessage(1000, "bye"), time.Time{}); e != nil {
+			return st, fmt.Errorf("sending the local Close: %v", e)
+		}
+		skip = out.Len()
+	}
 
 	var got []wsref.Delivered
 	var rerr error
@@ -181,6 +192,13 @@ func runCase(c Case) (st stats, err error) {
 	outMsgs, perr := wsref.ParseStrict(out.Bytes(skip), wsref.StrictOpts{FromClient: !c.Server})
 	if perr != nil {
 		return st, fmt.Errorf("endpoint output is not a valid frame stream: %v", perr)
+	}
+	if c.LocalClose {
+		// nothing may follow the Close frame the application sent; the messages above are still delivered
+		if len(outMsgs) != 0 {
+			return st, fmt.Errorf("%d frames were written after the application's Close frame", len(outMsgs))
+		}
+		return st, nil
 	}
 	var pongs [][]byte
 	var closes [][]byte
@@ -316,9 +334,31 @@ func genCase(t *rapid.T) Case {
 			case 1:
 				body = closeBody(rapid.SampledFrom(invalidCodes).Draw(t, "badcode"), nil)
 			case 2:
-				body = closeBody(rapid.SampledFrom(validCodes).Draw(t, "code"), []byte{0xff, 0xfe, 'x'})
+				// a reason that is not UTF-8, of any length a close frame can carry (2+123 bytes)
+				n := rapid.SampledFrom([]int{1, 2, 3, 20, 50, 82, 83, 86, 100, 122, 123}).Draw(t, "badlen")
+				if rapid.Bool().Draw(t, "badlenu") {
+					n = rapid.IntRange(1, 123).Draw(t, "badlenn")
+				}
+				bad := rapid.SampledFrom([][]byte{{0xff}, {0xc0, 0x80}, {0xed, 0xa0, 0x80}, {0xe2, 0x82}, {0x80}, {0xf8, 0x88, 0x80, 0x80, 0x80}}).Draw(t, "badseq")
+				reason := bytes.Repeat([]byte("r"), n)
+				if rapid.IntRange(0, 3).Draw(t, "allbad") == 0 {
+					reason = bytes.Repeat([]byte{0xff}, n)
+				}
+				at := rapid.IntRange(0, n-1).Draw(t, "badat")
+				if string(bad) == "\xe2\x82" || at+len(bad) > n {
+					at = max(n-len(bad), 0) // a truncated sequence is invalid only at the very end
+				}
+				copy(reason[at:], bad)
+				if utf8.Valid(reason) {
+					reason[n-1] = 0xff
+				}
+				body = closeBody(rapid.SampledFrom(validCodes).Draw(t, "code"), reason)
 			default:
-				body = closeBody(rapid.SampledFrom(validCodes).Draw(t, "code"), []byte(rapid.StringMatching(`[a-zé]{0,20}`).Draw(t, "reason")))
+				r := []byte(rapid.StringMatching(`[a-zé]{0,20}`).Draw(t, "reason"))
+				if rapid.IntRange(0, 3).Draw(t, "longreason") == 0 {
+					r = bytes.Repeat([]byte("é~"), 41)[:rapid.SampledFrom([]int{120, 123}).Draw(t, "lrn")] // 3-byte units: both cuts end on a character boundary
+				}
+				body = closeBody(rapid.SampledFrom(validCodes).Draw(t, "code"), r)
 			}
 			if body == nil {
 				body = []byte{}
@@ -376,6 +416,7 @@ func genCase(t *rapid.T) Case {
 	if c.SegKind == 2 || c.SegKind == 3 {
 		c.Seg = rapid.SliceOfN(rapid.IntRange(1, 30), 1, 6).Draw(t, "seg")
 	}
+	c.LocalClose = rapid.IntRange(0, 5).Draw(t, "localclose") == 0
 	if rapid.IntRange(0, 3).Draw(t, "cutk") == 0 {
 		total := 0
 		for _, f := range c.Frames {
@@ -390,9 +431,9 @@ func genCase(t *rapid.T) Case {
 
 var recSeq = ev.New(prop, "sequences",
 	"rapid-generated frame sequences (<=14 items: data messages in 1-4 fragments incl. zero-length ones with pings/pongs in between, control frames, closes with valid/invalid codes and UTF-8/non-UTF-8 reasons, "+
-		"one-rule violations incl. 64-bit lengths with the top bit set, non-minimal length forms) for both roles, read limits relative to the message sizes, optional cut offset, segmented reads, several read-buffer sizes; "+
+		"one-rule violations incl. 64-bit lengths with the top bit set, non-minimal length forms) for both roles, read limits relative to the message sizes, optional cut offset, segmented reads, several read-buffer sizes, optionally after the application has sent its own Close (frames are still delivered, nothing more is written); "+
 		"oracle = RFC 6455 receiver model (delivered messages, error kind, pongs, close status written); non-trivial = ends in a violation/limit/close or contains a fragmented message").
-	Require("violation", "limit", "close", "eof", "fragmented", "cut", "pongs", "server", "client")
+	Require("violation", "limit", "close", "eof", "fragmented", "cut", "pongs", "server", "client", "local-close-sent-first", "ping-after-local-close")
 
 func classes(c Case, st stats) (bool, []string) {
 	cl := []string{st.event.String()}
@@ -409,6 +450,12 @@ func classes(c Case, st stats) (bool, []string) {
 		cl = append(cl, "server")
 	} else {
 		cl = append(cl, "client")
+	}
+	if c.LocalClose {
+		cl = append(cl, "local-close-sent-first")
+		if st.pongs > 0 {
+			cl = append(cl, "ping-after-local-close")
+		}
 	}
 	return st.event != wsref.EvEOF || st.fragmented, cl
 }
@@ -495,11 +542,11 @@ func TestEveryCut(t *testing.T) {
 // ---------------------------------------------------------------- bounded-exhaustive odometer
 
 type sym struct {
-	op      byte
-	fin     bool
-	rsv     byte
+	op        byte
+	fin       bool
+	rsv       byte
 	wrongMask bool
-	lenk    int // 0:0 1:1(close: invalid code) 2:2(close: code 1000) 3:125 4:126 as 16-bit 5: 5 bytes in 16-bit form 6: declared 2^63 7: declared 2^63-1 8: 65536 in 64-bit form 9: declared 2^64-1
+	lenk      int // 0:0 1:1(close: invalid code) 2:2(close: code 1000) 3:125 4:126 as 16-bit 5: 5 bytes in 16-bit form 6: declared 2^63 7: declared 2^63-1 8: 65536 in 64-bit form 9: declared 2^64-1
 }
 
 func (s sym) frame(server bool) F {
